@@ -102,7 +102,7 @@ def run(ctx):
     budget = 60 if ctx.quick else 800
     ctx.rule = ("random tensors (7 symmetries, ranks 2-5, integer data, random block subsets), random partitions/orders of legs into groups, depth <=3, "
                 "hard/meta/mixed, lazy transposes in between; operand pairs with equal/overlapping/disjoint fused sector content; incompatible fusions; "
-                "block() direct sums; oracles exact on integer data; non-trivial = >=2 blocks and a group of >=2 legs; distinct by (sym, legs, groups, modes)")
+                "block() direct sums; oracles exact on integer data; non-trivial = >=2 blocks and a group of >=2 legs; distinct by (sym, legs, groups, modes); plus incompatibility by dimensions (equal charges, different sector dimensions, also nested / meta-of-hard / trace) and view relations R2 (unfuse at once vs one by one), R4 (trace over fused legs, lazily held), R5/R6 (direct-sum legs of block() inside hard fusions), R7 (fused legs differing in charges only, n-ary add), R1")
     for it in range(ncase):
         if ctx.elapsed() > budget:
             ctx.count("stopped-by-time-budget")
